@@ -229,9 +229,14 @@ func (rt c01RoundTripper) RoundTrip(req *http.Request) (*http.Response, error) {
 	body, _ := io.ReadAll(req.Body)
 	vsched.Point("clickhouse insert")
 	ok := true
-	if w.fails && vsched.Self() != nil && w.x.Choose(2, "insert fails") == 1 {
-		ok = false
-		w.failures++
+	failKind := 0
+	if w.fails && vsched.Self() != nil {
+		// 0 = stored; 1 = ClickHouse refuses (500 with its exception header); 2 = something in front of ClickHouse
+		// answers (503, no ClickHouse header); 3 = the connection breaks (transport error)
+		if failKind = w.x.Choose(4, "insert answer"); failKind != 0 {
+			ok = false
+			w.failures++
+		}
 	}
 	var held []string
 	for _, r := range w.reqs {
@@ -246,8 +251,13 @@ func (rt c01RoundTripper) RoundTrip(req *http.Request) (*http.Response, error) {
 		}
 	}
 	w.inserts = append(w.inserts, fmt.Sprintf("insert(ok=%v rows of #%s)", ok, strings.Join(held, ",")))
-	if !ok {
+	switch failKind {
+	case 1:
 		return &http.Response{StatusCode: 500, Header: http.Header{"X-Clickhouse-Exception-Code": []string{"241"}}, Body: io.NopCloser(strings.NewReader("scripted failure")), Request: req}, nil
+	case 2:
+		return &http.Response{StatusCode: 503, Header: http.Header{}, Body: io.NopCloser(strings.NewReader("upstream unavailable")), Request: req}, nil
+	case 3:
+		return nil, fmt.Errorf("scripted transport error")
 	}
 	return &http.Response{StatusCode: 200, Header: http.Header{}, Body: io.NopCloser(strings.NewReader("")), Request: req}, nil
 }
@@ -515,7 +525,7 @@ func TestVerifC01Agg(t *testing.T) {
 	bound := mc.Pick(1, 2)
 	rep.Bounds["aggregator_deviation_bound"] = bound
 	rep.Bounds["aggregator_scenarios"] = len(scs)
-	rep.Rule = "aggregator half: every execution with at most B deviations (ClickHouse insert answers 500 instead of 200; another thread than the default one runs; a due timer fires first; non-source-order select probe) of every scenario (2-3 scripted agents sending on-time recent / late recent / historic / historic at the edge of the window / spare / beyond-historic-window / far-future / wrong-shard / undecodable requests, replica 1-3, 1-2 inserters), real handler + ticker + inserters under virtual time. Non-trivial = execution with an insert failure or a schedule deviation"
+	rep.Rule = "aggregator half: every execution with at most B deviations (ClickHouse insert answers 500 with its exception header / 503 without one / a transport error instead of 200; another thread than the default one runs; a due timer fires first; non-source-order select probe) of every scenario (2-3 scripted agents sending on-time recent / late recent / historic / historic at the edge of the window / spare / beyond-historic-window / far-future / wrong-shard / undecodable requests, replica 1-3, 1-2 inserters), real handler + ticker + inserters under virtual time. Non-trivial = execution with an insert failure or a schedule deviation"
 	shard, shards := mc.ShardFromEnv()
 	body := func(x *mc.Exec) mc.Verdict {
 		si := x.ChooseFree(len(scs), "scenario")
